@@ -13,12 +13,20 @@ CLAIMED = {
         "Every function of package ringbuffer (New, Push, Pop, PopN, Len) is verified from its go/ssa form against a full functional contract over the abstract queue view[k] = items[(head+1+k) % mod]: lock invariant (geometry of head/tail/len/mod), Push appends exactly one element and keeps the prefix for every buffer geometry including the grow-and-copy branch (loop invariant, unbounded), Pop/PopN return exactly the first min(n,len) elements and leave the rest shifted, report false exactly when empty, Len >= 0; all accesses to guarded fields happen under rb.mu. All obligations are discharged by SMT for all inputs, sizes and iteration counts.",
         "Assumed: a structure whose every critical section satisfies its sequential specification under one mutex is linearizable (textbook, Go memory model); integers mathematical (int64 overflow of mod*2 not modelled); gomod axioms for % on non-negative operands; SMT solvers sound.",
         "DESIGN.md section 5 (C14)"),
+    "C16": (
+        "Partial proof, scoped to the hand-written inbound path. streamReader.Receive is verified from its go/ssa form for every envelope the decoder can hand it (arbitrary table lengths and arbitrary, also negative, int32 indices; only 'element pointers are non-nil' is assumed of the decoder): every slice index in Receive is in range and no nil pointer is dereferenced (safety obligations bounds[...]/nil[...]/nilcall[...], all loops cut at checked invariants, unbounded in the number of envelopes and messages), and at the single call of Engine.SendLocal the target is envelope.Targets[msg.TargetIndex], the payload is the value deserialised from msg.Data under envelope.TypeNames[msg.TypeNameIndex], and the sender is envelope.Senders[msg.SenderIndex] or nil when the sender table is empty, with all three indices proved in range at that point. NOT covered (stated, not proved): the generated decoder Envelope.UnmarshalVT/Message.UnmarshalVT, the protobuf library behind Deserialize, drpc's handling of the returned error, Engine.SendLocal itself (trusted boundary).",
+        "Assumed: abstract contracts of DRPCRemote_ReceiveStream.Recv (non-nil element pointers on success), Deserializer.Deserialize (returns normally; deser() names its result), Engine.SendLocal (returns normally, writes nothing Receive reads again); slog/errors calls have no effect on repository heap; integers mathematical (int32->int conversion is exact); SMT solvers sound. The pinned tree violated the index obligations; repaired by fix: commit 8fc62d5 (recorded in known_findings.json as fixed).",
+        "DESIGN.md section 5 (C16) and section 10"),
+    "C20": (
+        "Partial proof, scoped to the provider's member-list bookkeeping. Verified from go/ssa for all member sets and arguments: MemberSet.GetByHost returns nil exactly when no member has that host and otherwise a member of the set with that host (map-iteration invariant over the ghost visited set, unbounded); Contains/Add/Remove are exact set operations keyed by Member.ID that leave every other entry untouched; SelfManaged.removeMember never panics, changes nothing for nil or a non-member, and otherwise removes exactly that member; SelfManaged.addMembers adds every listed member and keeps every existing entry (loop invariant, unbounded); the representation invariant 'every entry is a non-nil member stored under its own ID' is preserved. NOT covered (stated, not proved): the dispatch in SelfManaged.Receive (Handshake reply to c.Sender(), the GetByHost->removeMember glue in the memberLeave case), sendMembersToAgent (trusted: does not change the member set), handleEventStream, mDNS discovery and the pinger.",
+        "Assumed: sendMembersToAgent does not modify the member set and returns normally (trusted contract); map builtin model (dom/val/card arrays, delete/insert/lookup, range = pick any unvisited key); integers mathematical; SMT solvers sound. The pinned tree violated requires[C20.contains.nonnil] in removeMember (nil from GetByHost passed to Contains); repaired by fix: commit 624b4e2 (recorded in known_findings.json as fixed).",
+        "DESIGN.md section 5 (C20) and section 10"),
 }
 
 NOT_APPLICABLE = {
 }
 
-PENDING_REASON = "contracts for this property are not yet discharged by hv in this revision; nothing is claimed (see DESIGN.md section 5)"
+PENDING_REASON = "not claimed in this revision: the contracts planned in DESIGN.md section 5 for this property are not written/discharged yet, so no check is registered and nothing is asserted about it (DESIGN.md section 10 lists what is and is not built)"
 
 
 def main():
